@@ -119,7 +119,9 @@ fn b64(bytes: &[u8]) -> String {
   base64::encode(bytes)
 }
 
-const MALFORMED: [&str; 33] = [
+const MALFORMED: [&str; 35] = [
+  "eval_computed_number",
+  "eval_computed_number",
   "eval_long_nonascii_broken_context",
   "add_b64_long_nonascii_not_xml",
   "tck_long_nonascii_unknown_model",
@@ -153,6 +155,27 @@ const MALFORMED: [&str; 33] = [
   "tck_broken_json",
   "unknown_route",
   "wrong_method",
+];
+
+/// Numbers an input context can compute (the body of `/evaluate` is a FEEL context, its entries are
+/// expressions): beyond the range of decimal128, not numbers at all, signed zero, 34-digit results.
+const ODD_NUMBERS: [&str; 16] = [
+  "(10 ** 6000) * (10 ** 6000)",
+  "(10 ** 6000) * (10 ** 6000) * -1",
+  "(10 ** 6000) * (10 ** 6000) - (10 ** 6000) * (10 ** 6000)",
+  "exp(100000)",
+  "floor((10 ** 6000) * (10 ** 6000))",
+  "(10 ** 6144) * 10",
+  "10 ** 400",
+  "10 ** -400",
+  "(10 ** -6000) * (10 ** -6000)",
+  "0 * -1",
+  "2 ** 0.5",
+  "-(1 / 3)",
+  "9999999999999999999999999999999999 * 9999999999999999999999999999999999",
+  "sum([10 ** 6144, 10 ** 6144 * 9])",
+  "max([1, (10 ** 6000) * (10 ** 6000)])",
+  "(10 ** 6000) * (10 ** 6000) / ((10 ** 6000) * (10 ** 6000))",
 ];
 
 const ODD_CONTEXTS: [&str; 8] = [
@@ -393,6 +416,25 @@ fn build_request(s: &Setup, r: &Value) -> Built {
           op: Op::EvalAny(model_name(m)),
           label: label.clone(),
         },
+        "eval_computed_number" => {
+          let k = pu64(r, "n") as usize;
+          let e = ODD_NUMBERS[k % ODD_NUMBERS.len()];
+          let (decision, body) = match (k / ODD_NUMBERS.len()) % 5 {
+            0 => ("echo_n", format!("{{n: {}}}", e)),
+            1 => ("echo_mix", format!("{{s: \"x\", n: {}, b: true}}", e)),
+            2 => ("scale_n", format!("{{n: {}, sc: 2}}", e)),
+            3 => ("echo_l", format!("{{l: [1, {}]}}", e)),
+            _ => ("echo_p", format!("{{p: {{name: \"x\", age: {}, scores: [{}]}}}}", e, e)),
+          };
+          Built {
+            method: "POST",
+            path: format!("/evaluate/{}/{}", percent_encode(&model_name(m)), decision),
+            content_type: None,
+            body: body.into_bytes(),
+            op: Op::EvalAny(model_name(m)),
+            label: format!("{} {}", label, decision),
+          }
+        }
         "eval_nonutf8_body" => raw("POST", &format!("/evaluate/{}/d", percent_encode(&model_name(m))), None, vec![b'{', 0xff, 0xfe, b'}'], true),
         "eval_empty_body" => Built {
           method: "POST",
@@ -1779,7 +1821,7 @@ fn loopback_script(seed: u64) -> Vec<Value> {
       3 => json!({"kind": "deploy"}),
       4 => json!({"kind": "clear"}),
       5 | 6 => json!({"kind": "eval", "m": m}),
-      7 => json!({"kind": "mal", "what": rng.pick(&MALFORMED), "m": m, "n": rng.below(64)}),
+      7 => json!({"kind": "mal", "what": rng.pick(&MALFORMED), "m": m, "n": rng.below(80)}),
       _ => gen_echo(&mut rng, m.to_string()),
     };
     script.push(r);
@@ -2101,7 +2143,7 @@ impl Sim for C18 {
           } else if deployed && use_tod && roll < 55 {
             json!({"kind": "tod", "m": target(&mut rng, &guess)})
           } else if use_mal && (50..65).contains(&roll) {
-            json!({"kind": "mal", "what": rng.pick(&MALFORMED), "m": target(&mut rng, &guess), "n": rng.below(64)})
+            json!({"kind": "mal", "what": rng.pick(&MALFORMED), "m": target(&mut rng, &guess), "n": rng.below(80)})
           } else if !guess.is_empty() && !deployed && roll < 62 {
             json!({"kind": "deploy"})
           } else if (80..82).contains(&roll) {
